@@ -4,7 +4,7 @@
     regenerated from /repo on every run, contains only memo-field writes, writes to the object
     under construction, accumulator-private writes and writes to locally created containers. *)
 From Coq Require Import List.
-From SM Require Import Generated Tie.
+From SM Require Import Generated TieWrites.
 
 Theorem C10_writes_framed : forall w, In w gen_writes -> write_allowed w = true.
 Proof. exact writes_framed_forall. Qed.
